@@ -197,7 +197,7 @@ class Evaluator:
     def function_paths(self, f: FuncInfo, args: Optional[Dict[str, object]] = None, selfv=None, depth: int = 0):
         """List of (frozenset(conds), result) for all paths of f.  Unbound parameters become symbols."""
         env: Dict[str, object] = {}
-        for p in f.params + f.kwonly:
+        for p in f.params + f.kwonly + [x for x in (f.vararg, f.kwarg) if x]:
             if p == "self" and f.is_method:
                 env[p] = selfv if selfv is not None else sym("self")
             elif args is not None and p in args:
@@ -221,7 +221,7 @@ class Evaluator:
         self.effect_calls = set(effect_calls)
         self.effects_mode = True
         env: Dict[str, object] = {"$fx": ()}
-        for p in f.params + f.kwonly:
+        for p in f.params + f.kwonly + [x for x in (f.vararg, f.kwarg) if x]:
             if p == "self" and f.is_method:
                 env[p] = sym("self")
             elif args and p in args:
@@ -269,10 +269,11 @@ class Evaluator:
         alts = [(frozenset(), {})]
         for i, a in enumerate(call.args):
             nxt = []
+            star = isinstance(a, ast.Starred)
             for c, d in alts:
-                for c2, v in self.ev(a, env, ctx):
+                for c2, v in self.ev(a.value if star else a, env, ctx):
                     dd = dict(d)
-                    dd[i] = v
+                    dd[i] = Rat.atom(("star", as_term(v))) if star else v
                     nxt.append((c | c2, dd))
             alts = nxt
         for k in call.keywords:
@@ -280,7 +281,7 @@ class Evaluator:
             for c, d in alts:
                 for c2, v in self.ev(k.value, env, ctx):
                     dd = dict(d)
-                    dd[k.arg] = v
+                    dd[k.arg if k.arg is not None else "**"] = v
                     nxt.append((c | c2, dd))
             alts = nxt
         n = len(env.get("$fx", ()))
@@ -772,7 +773,19 @@ class Evaluator:
 
     def exec_for(self, st: ast.For, conds, env, ctx):
         try:
-            return self._exec_for(st, conds, env, ctx)
+            try:
+                return self._exec_for(st, conds, env, ctx)
+            except BudgetExceeded:
+                raise
+            except Unreadable as e:
+                # a body the accumulation idioms do not cover (e.g. a statement-level method call on state): in effect
+                # mode the generic loop records what each iteration does
+                if self.effects_mode and ctx.fx and "loop body statement" in str(e):
+                    it_term, binds = self.iter_binding(st.iter, st.target, env, ctx, body=st.body)
+                    lv_env = dict(env)
+                    lv_env.update(binds)
+                    return self._generic_loop(it_term, st.body, conds, env, lv_env, list(binds), ctx)
+                raise
         except NeedSplit as ns:
             c = ns.cond
             from .norm import all_atoms_deep
@@ -1722,16 +1735,18 @@ class Evaluator:
             alts = [(frozenset(), [], {})]
             for a in node.args:
                 nxt = []
+                star = isinstance(a, ast.Starred)
                 for c, pos, kw in alts:
-                    for c2, v in self.ev(a, env, ctx):
-                        nxt.append((c | c2, pos + [v], kw))
+                    for c2, v in self.ev(a.value if star else a, env, ctx):
+                        # f(*xs): the whole sequence is one opaque positional block
+                        nxt.append((c | c2, pos + [Rat.atom(("star", as_term(v))) if star else v], kw))
                 alts = nxt
             for k in node.keywords:
                 nxt = []
                 for c, pos, kw in alts:
                     for c2, v in self.ev(k.value, env, ctx):
                         kk = dict(kw)
-                        kk[k.arg] = v
+                        kk[k.arg if k.arg is not None else "**"] = v
                         nxt.append((c | c2, pos, kk))
                 alts = nxt
             return alts
@@ -1949,7 +1964,7 @@ class Evaluator:
 
     def _function_paths_ctx(self, f, args, selfv, depth, selfcls):
         env: Dict[str, object] = {}
-        for p in f.params + f.kwonly:
+        for p in f.params + f.kwonly + [x for x in (f.vararg, f.kwarg) if x]:
             if p == "self" and f.is_method:
                 env[p] = selfv if selfv is not None else sym("self")
             elif p in args:
